@@ -12,7 +12,7 @@ VARIABLE st   \* [wrap, pre, open, content, close, post, cut]
 
 CONSTANTS Pre,      \* subset of {"none", "pi", "cmt", "doctype", "empty", "cempty", "bang"}
           Open,     \* subset of {"oa", "oattr", "ons", "osp", "sc", "scattr", "scsp"}
-          Content,  \* subset of {"none", "txt", "cdata", "nested", "ccmt", "opencdata"}
+          Content,  \* subset of {"none", "txt", "cdata", "nested", "selfnested", "ccmt", "opencdata"}
           Close,    \* subset of {"ca", "cns", "cb", "none"}
           Post      \* subset of {"none", "sp", "elem2", "stray", "lt", "ltbang"}
 SelfClosing == {"sc", "scattr", "scsp"}
@@ -34,6 +34,7 @@ T(x) == CASE x = "none" -> << >>
    [] x = "txt" -> << 116, 49 >>
    [] x = "cdata" -> << 60, 33, 91, 67, 68, 65, 84, 65, 91, 99, 60, 100, 93, 93, 62 >>
    [] x = "nested" -> << 60, 98, 62, 116, 60, 47, 98, 62 >>
+   [] x = "selfnested" -> << 60, 98, 47, 62 >>
    [] x = "ccmt" -> << 117, 60, 33, 45, 45, 107, 45, 45, 62, 118 >>
    [] x = "opencdata" -> << 60, 33, 91, 67, 68, 65, 84, 65, 91, 99 >>
    [] x = "ca" -> << 60, 47, 97, 62 >>
